@@ -3,7 +3,8 @@
    _run.py/_prepare.py/adaptive.py), the declarative notions are in Model/FixedSpec.v. *)
 From Verif Require Import Base.Prelude Base.StrUtil Base.Index Base.NdArr Base.PyRange
   Model.MapSpec Model.MapSpecSpec Model.MapRun Model.SymBody.
-From Verif Require Import Proofs.IndexFacts Proofs.PyRangeFacts Proofs.MapResumeFacts Proofs.MapValuesFacts.
+From Verif Require Import Model.MapDenote Proofs.MapRunFacts.
+From Verif Require Import Proofs.IndexFacts Proofs.PyRangeFacts Proofs.MapResumeFacts Proofs.MapValuesFacts Proofs.MapResumeDenote Proofs.FixedSpecFacts.
 From Verif Require Import Model.MapResume Model.FixedSpec.
 
 (* ---------------------------------------------------------------- Python slices / ints (Base/PyRange.v) *)
@@ -165,11 +166,53 @@ Proof.
     repeat match goal with H : _ \/ _ |- _ => destruct H | H : False |- _ => destruct H end; subst; try discriminate.
 Qed.
 
+(* ---------------------------------------------------------------- link to C01 and the denotation *)
+(* LINK LEMMA.  Under C01's hypotheses (request_ok, defined denotation D, body_arity) and the decidable order
+   conditions pipeline_order_ok (list in topological order, producers in earlier generations, every function in a
+   generation – what pipefunc's sorted_functions / topological_generations give; evaluated on every generated request by
+   the CLink cases), C01's model Model/MapRun.map_run and this property's model map_run_sel on the empty store without
+   a request BOTH succeed, and both return / store the denoted arrays. *)
+Theorem C06_map_run_sel_is_map_run : forall body user p inputs D,
+  body_arity body ->
+  request_ok p inputs = true -> denote_run body p inputs user = Ok D -> pipeline_order_ok p = true ->
+  exists st ps,
+    map_run body p inputs user = Ok st
+    /\ map_run_sel body p inputs user None empty_store = ROk ps
+    /\ map (fun x => (fst (fst x), snd (fst x))) (r_out st) = d_out D
+    /\ map (fun x => (fst (fst x), snd x)) (r_out st) = d_out D
+    /\ (forall f o, In f p -> In o (fouts f) -> dict_get (p_out ps) o = dict_get (d_out D) o)
+    /\ (forall f, In f p -> ffull body p inputs D (p_store ps) f).
+Proof. exact map_run_sel_is_map_run. Qed.
+Print Assumptions C06_map_run_sel_is_map_run.
+
+(* pieces_eq_whole against the DENOTATION, including completion and Result.output:
+   whatever ran before (any parts, in any order, interrupted or not) – if the store holds, where it holds something,
+   denoted values (fsub: every present cell of a mapped output is the value the denotation's call at that position
+   returns, every present single output is the denoted value) – then the final full run COMPLETES, every output's
+   Result.output is the denoted array, and the store is the full denoted store (ffull).
+   `_partial`: that a VALID part leaves such a store (a selected element reads only present upstream elements) is the
+   one step that remains unproved for whole pipelines; it is proved for one function (C06_pieces_eq_whole_func) and
+   checked on every run by spec_ok. *)
+Theorem C06_pieces_eq_denotation_partial : forall body user p inputs D rs,
+  body_arity body ->
+  request_ok p inputs = true -> denote_run body p inputs user = Ok D -> pipeline_order_ok p = true ->
+  (forall g, In g p -> fsub body p inputs D rs g) ->
+  exists ps, map_run_sel body p inputs user None rs = ROk ps
+    /\ (forall f, In f p -> ffull body p inputs D (p_store ps) f)
+    /\ (forall f o, In f p -> In o (fouts f) -> dict_get (p_out ps) o = dict_get (d_out D) o)
+    /\ Forall (dump_den body p inputs D) (p_tr ps).   (* and every value it dumps is the denoted one *)
+Proof. exact full_run_on_substore_denotes. Qed.
+Print Assumptions C06_pieces_eq_denotation_partial.
+
+Example ex_denote_hyps :
+  request_ok [ex_f; ex2_g] ex_inputs = true /\ is_ok (denote_run sym_body [ex_f; ex2_g] ex_inputs []) = true
+  /\ pipeline_order_ok [ex_f; ex2_g] = true /\ body_arity sym_body.
+Proof. split; [vm_compute; reflexivity|]. split; [vm_compute; reflexivity|]. split; [vm_compute; reflexivity | exact sym_body_arity]. Qed.
+
 (* What is still NOT proved for whole pipelines (checked on every run by spec_ok of Corr/Run_C06.v):
-   (a) that the run on the sub-store completes (ROk) whenever the uninterrupted run does;
-   (b) that after a VALID part (request_status = Valid) the store is a sub-store of F, i.e. that a selected element
-       reads only upstream elements that are present – this is where "no reduction over a fixed axis" enters;
-   (c) equality of the returned Result.output arrays (the theorem speaks about the store). *)
+   that after a VALID part (request_status = Valid) the store is a sub-store of the denoted store (fsub), i.e. that a
+   selected element reads only upstream elements that are present – this is where "no reduction over a fixed axis"
+   enters.  Completion and Result.output of the final run are now proved (C06_pieces_eq_denotation_partial). *)
 
 (* ---------------------------------------------------------------- final_run_computes_nothing *)
 Theorem C06_final_run_computes_nothing_func : forall body f ms kw sh mask stores tr st existing,
@@ -224,6 +267,41 @@ Theorem C06_out_of_range_rejected_partial : forall d inputs p name axs k a sel a
   exists e', validate_fixed (Some d) inputs p = Err e'.
 Proof. exact out_of_range_rejected. Qed.
 Print Assumptions C06_out_of_range_rejected_partial.
+
+(* FULL declarative versions under consistent axis names (every array is spelled with the same axis name at the same
+   position in all MapSpecs – what validate_consistent_axes enforces at construction): *)
+Theorem C06_reduced_axis_rejected : forall p, consistent_axes (arrayspecs p) ->
+  forall d inputs a, In a (map fst d) -> axis_reduced p a = true -> exists e, validate_fixed (Some d) inputs p = Err e.
+Proof. exact reduced_axis_rejected_decl. Qed.
+Print Assumptions C06_reduced_axis_rejected.
+
+Theorem C06_out_of_range_rejected : forall p, consistent_axes (arrayspecs p) ->
+  forall d inputs a name k sel arr n e,
+  In (name, k) (carriers_of p a) -> dict_get d a = Some sel ->
+  dict_get inputs name = Some (VA arr) -> nth_error (shp arr) k = Some n -> fsel_indices sel n = Err e ->
+  exists e', validate_fixed (Some d) inputs p = Err e'.
+Proof. exact out_of_range_rejected_decl. Qed.
+Print Assumptions C06_out_of_range_rejected.
+
+(* bad_request_rejected: a request that the declarative classification of Model/FixedSpec.v calls Rejected (unknown
+   axis, reduced axis, or index out of range on an axis of a supplied input) is refused by _validate_fixed_indices –
+   and therefore (C06_bad_request_rejected_before_any_call) before any user function is called *)
+Theorem C06_bad_request_rejected : forall p, consistent_axes (arrayspecs p) ->
+  forall inputs (d : fixed), NoDup (map fst d) -> NoDup (map fst inputs) ->
+  request_status p inputs (init_shapes inputs) d = Rejected ->
+  exists e, validate_fixed (Some d) inputs p = Err e.
+Proof. exact rejected_status_rejected. Qed.
+Print Assumptions C06_bad_request_rejected.
+
+Example ex_consistent : consistent_axes (arrayspecs [ex_f; ex2_g]).
+Proof.
+  intros sp1 sp2 k x y H1 H2 _ K1 K2. cbn in H1, H2.
+  destruct H1 as [<-|[<-|[]]], H2 as [<-|[<-|[]]]; destruct k as [|[|k]]; cbn in K1, K2; congruence.
+Qed.
+Example ex_rejected_status :
+  request_status [ex_f; ex2_g] ex_inputs (init_shapes ex_inputs) [(s "i", FInt 0%Z)] = Rejected   (* i is reduced by g *)
+  /\ request_status [ex_f] ex_inputs (init_shapes ex_inputs) [(s "i", FInt 7%Z)] = Rejected.
+Proof. split; vm_compute; reflexivity. Qed.
 
 Example ex_rejected :
   map_run_sel sym_body [ex_f] ex_inputs [] (Some [(s "i", FInt 3%Z)]) empty_store = RErr IndexError []
